@@ -325,6 +325,12 @@ pub fn step(w: &mut World, op: &Op) -> Option<(String, String)> {
 /// Restarts the node (clean = safe_shutdown first) and compares every database with the image of its
 /// last executed snapshot. Returns ALL mismatches as (what, key-history marks, detail); empty = fine.
 pub fn restart(w: &mut World, clean: bool) -> Vec<(String, String, String)> {
+    restart_guarded(w, clean, &|| true)
+}
+
+/// `restart`, with a say of the caller between the shutdown and the start (C18: nothing is started from S3 objects that
+/// an ignored failed upload left in mixed generations)
+pub fn restart_guarded(w: &mut World, clean: bool, may_boot: &dyn Fn() -> bool) -> Vec<(String, String, String)> {
     let mut out: Vec<(String, String, String)> = vec![];
     if clean {
         let pre = pre_images(w);
@@ -340,6 +346,10 @@ pub fn restart(w: &mut World, clean: bool) -> Vec<(String, String, String)> {
     }
     w.admin.clear();
     w.node = None; // drop: nothing is buffered in user space between commands
+    if !may_boot() {
+        out.push(("not-started".into(), "-".into(), "the caller did not want the node started".into()));
+        return out;
+    }
     let dir = w.dir.clone();
     let booted = match crate::node::probe_boot(&dir) {
         Ok(()) => catch_unwind(AssertUnwindSafe(|| Node::boot_single(&dir))),
